@@ -22,7 +22,9 @@ results=""
 cd /repo; [ -z "$(git status --porcelain)" ] || { echo "/repo dirty"; exit 2; }
 for prop in "$@"; do
   git apply $d/patch.diff || { echo "patch does not apply to /repo"; exit 2; }
+  cp /verif/evidence/$prop.json /var/tmp/evidence.$$.json 2>/dev/null
   (cd /verif && ./run $prop quick > /tmp/seed.$$.$prop 2>&1); rc=$?
+  [ -f /var/tmp/evidence.$$.json ] && mv /var/tmp/evidence.$$.json /verif/evidence/$prop.json
   git checkout -- . ; git clean -fdq
   echo "--- check $prop exit=$rc"; grep -E "VIOLATION|INTERNAL|violation" /tmp/seed.$$.$prop | head -4 | cut -c1-200
   results="$results $prop=$rc"
